@@ -340,6 +340,12 @@ func (c *EvalCtx) binary(e EBin) EV {
 			r = Eq(app(SInt, "s-arr", s), IntLit(0))
 		case xt.Sort == SIface:
 			r = fr.ifaceEq(xt, yt)
+		case strings.HasPrefix(string(xt.Sort), "TP_") && yt.Sort == SInt && yt.S == "0":
+			// a value of type-parameter type against nil, inside the generic body: an uninterpreted fact about the
+			// value (at instantiated call sites the comparison is the ordinary one on the type argument)
+			name := "tpnil." + string(xt.Sort)
+			fr.R.Sc.DeclareFun(name, []Sort{xt.Sort}, SBool)
+			r = app(SBool, name, xt)
 		default:
 			if xt.Sort != yt.Sort {
 				c.fail("comparison of %s and %s in %s", xt.Sort, yt.Sort, ExprString(e))
